@@ -809,6 +809,7 @@ func (vc *VC) convert(fr *Frame, st *State, v *Val, to types.Type, pos token.Pos
 		nh := vc.fresh("H_"+key, "(Array Int Int)")
 		vc.assume(fmt.Sprintf("(forall ((a Int)) (! (= (select %s a) (ite (and (<= %s a) (< a (+ %s %s))) (str.to_code (str.at %s (- a %s))) (select %s a))) :pattern ((select %s a))))", nh, addr, addr, n, v.S, addr, h, nh))
 		st.heaps[key] = nh
+		vc.bytesFrame(key, h, nh, addr)
 		sl := vc.define("s2b", "Slice", fmt.Sprintf("(mkSlice (ite (= %s 0) 0 %s) %s %s)", n, addr, n, n))
 		vc.u.declareUninterp("bytes2str", []string{"(Array Int Int)", "Slice"}, "String")
 		vc.assume("(= (bytes2str " + nh + " " + sl + ") " + v.S + ")")
@@ -970,6 +971,7 @@ func (vc *VC) makeSlice(st *State, t, et types.Type, ln, cp string) *Val {
 	nh := vc.fresh("H_"+key, "(Array Int "+es+")")
 	vc.assume(fmt.Sprintf("(forall ((a Int)) (! (= (select %s a) (ite (and (<= %s a) (< a (+ %s %s))) %s (select %s a))) :pattern ((select %s a))))", nh, addr, addr, cp, vc.u.zero(et), h, nh))
 	st.heaps[key] = nh
+	vc.bytesFrame(key, h, nh, addr)
 	return &Val{T: t, S: vc.define("mk", "Slice", fmt.Sprintf("(mkSlice %s %s %s)", addr, ln, cp))}
 }
 
@@ -1141,4 +1143,16 @@ func (vc *VC) implementsTerm(a string, it types.Type) string {
 	vc.u.declareUninterp(name, []string{"Int"}, "Bool")
 	vc.eng.implFacts(vc, name, iface)
 	return fmt.Sprintf("(and (not (= (atag %s) 0)) (%s (atag %s)))", a, name, a)
+}
+
+// bytesFrame: string(b) of a byte slice that lies entirely below `below` is the
+// same in heap version hNew as in hOld (only memory at or above `below` differs).
+func (vc *VC) bytesFrame(key, hOld, hNew, below string) {
+	if key != vc.u.heapKey(byteT) {
+		return
+	}
+	if _, ok := vc.u.uninterpN["bytes2str"]; !ok {
+		vc.u.declareUninterp("bytes2str", []string{"(Array Int Int)", "Slice"}, "String")
+	}
+	vc.assume(fmt.Sprintf("(forall ((s Slice)) (! (=> (<= (+ (sptr s) (scap s)) %s) (= (bytes2str %s s) (bytes2str %s s))) :pattern ((bytes2str %s s))))", below, hNew, hOld, hNew))
 }
